@@ -54,12 +54,16 @@ MutinyStream<'a, ItemType, ChannelConsumerType, DerivedItemType> {
 
     #[inline(always)]
     fn poll_next(self: Pin<&mut Self>, cx: &mut Context<'_>) -> Poll<Option<Self::Item>> {
+        #[cfg(feature = "verif")] crate::verif::yield_point();
         let event = self.events_source.consume(self.stream_id);
         match event {
             Some(_) => Poll::Ready(event),
             None => {
+                #[cfg(feature = "verif")] crate::verif::yield_point();
                 if self.events_source.keep_stream_running(self.stream_id) {
+                    #[cfg(feature = "verif")] crate::verif::yield_point();
                     self.events_source.register_stream_waker(self.stream_id, cx.waker());
+                    #[cfg(feature = "verif")] crate::verif::yield_point();
                     Poll::Pending
                 } else {
                     Poll::Ready(None)
